@@ -772,7 +772,14 @@ impl<F: FileSystem + Sync> Server<F> {
                 };
 
                 let enabled = capable & want;
-                let enabled_flags = enabled.bits();
+                let mut enabled_flags = enabled.bits();
+                // The client reads `flags2` only when the reply carries INIT_EXT, so extended
+                // bits are always sent together with the marker (the client offered it,
+                // otherwise `capable` has no extended bits).
+                #[cfg(target_os = "linux")]
+                if (enabled_flags >> 32) != 0 {
+                    enabled_flags |= FsOptions::INIT_EXT.bits();
+                }
                 let mut out = InitOut {
                     major: KERNEL_VERSION,
                     minor: KERNEL_MINOR_VERSION,
